@@ -10,6 +10,7 @@ import (
 	"fmt"
 	"github.com/relab/hotstuff/security/crypto"
 	"reflect"
+	"sort"
 	"strings"
 	"sync"
 	"sync/atomic"
@@ -22,6 +23,7 @@ import (
 	"github.com/relab/hotstuff/core/eventloop"
 	"github.com/relab/hotstuff/internal/proto/clientpb"
 	"github.com/relab/hotstuff/internal/proto/hotstuffpb"
+	"github.com/relab/hotstuff/network"
 	"github.com/relab/hotstuff/protocol/leaderrotation"
 	"github.com/relab/hotstuff/protocol/rules"
 	"github.com/relab/hotstuff/server"
@@ -129,21 +131,22 @@ type TraceEntry struct {
 
 // Cluster is one execution's world.
 type Cluster struct {
-	Cfg          Config
-	W            *vk.World
-	Actors       []*Actor
-	ByID         map[hotstuff.ID][]*Actor
-	Pool         []Pending
-	seq          int
-	Step         int
-	Rng          *vbase.Rng
-	lateTimers   []lateTimer
-	staggerFirst *Actor // directed scenarios: the replica whose timer is the first to fire in the next idle round
-	Trace        []TraceEntry
-	Mon          *Monitors
-	R            *vbase.Result
-	Panic        any
-	PanicAt      string
+	Cfg               Config
+	W                 *vk.World
+	Actors            []*Actor
+	ByID              map[hotstuff.ID][]*Actor
+	Pool              []Pending
+	seq               int
+	Step              int
+	Rng               *vbase.Rng
+	lateTimers        []lateTimer
+	WrongFetchReplies int
+	staggerFirst      *Actor // directed scenarios: the replica whose timer is the first to fire in the next idle round
+	Trace             []TraceEntry
+	Mon               *Monitors
+	R                 *vbase.Result
+	Panic             any
+	PanicAt           string
 	// statistics of this execution
 	Delivered, Dropped, Dups, Timeouts, ByzActs, PartChanges, Crashes int
 	FaultSteps                                                        int
@@ -154,6 +157,8 @@ type Cluster struct {
 	// FetchDeny: the next k block requests for a hash get no reply (lost reply); FetchLost counts lost requests.
 	FetchDeny map[hotstuff.Hash]int
 	FetchLost int
+	// FetchTwin: the next k block requests for a hash are answered first by a Byzantine replica, with a twin of the block.
+	FetchTwin map[hotstuff.Hash]int
 	// CutLoss: every message sent across a cut link is lost (instead of half of them being delayed).
 	CutLoss bool
 	// NoFaults switches off fault injection inside lockstepRound (synchronous suffix of C05).
@@ -340,19 +345,51 @@ func (c *Cluster) fetch(a *Actor, h hotstuff.Hash) (*hotstuff.Block, bool) {
 		c.trace(TraceEntry{Kind: "fetch-lost", From: a.Name()})
 		return nil, false
 	}
+	// the replies of the reachable replicas go through the real quorum function of the fetch call, one by one in arrival
+	// order, as gorums does: honest replicas answer with the block if they hold it; a Byzantine replica answers with the
+	// block, with nothing, or with another block (a twin of the requested one: same parent, certificate, view and proposer,
+	// other commands)
+	in := &hotstuffpb.BlockHash{Hash: h[:]}
+	replies := map[uint32]*hotstuffpb.Block{}
+	order := make([]*Actor, 0, len(c.Actors))
 	for _, o := range c.Actors {
 		if o == a || o.Crashed || !c.linkOpen(a, o) {
 			continue
 		}
+		order = append(order, o)
+	}
+	// arrival order: a rotation determined by requester, block and step (no PRNG draw: schedules stay what they were)
+	if len(order) > 1 {
+		k := int(vbase.Hash64(fmt.Sprint("fetch-order", a.Idx, h, c.Step)) % uint64(len(order)))
+		order = append(order[k:], order[:k]...)
+	}
+	alwaysWrongFirst := c.FetchTwin[h] > 0
+	if alwaysWrongFirst {
+		c.FetchTwin[h]--
+		sort.SliceStable(order, func(i, j int) bool { return order[i].Byz != nil && order[j].Byz == nil })
+	}
+	for _, o := range order {
+		var reply *hotstuff.Block
 		if o.Node != nil {
 			if b, ok := o.M.Chain.LocalGet(h); ok {
-				return b, true
+				reply = b
 			}
 		} else if o.Byz != nil {
 			// a Byzantine replica answers block requests selectively (fixed per requester and block)
 			if b, ok := o.Byz.serve[h]; ok && !o.Byz.refuse[h] && (c.Cfg.Profile == "directed:selective-fetch" || vbase.Hash64(fmt.Sprint(a.Idx, h, c.Cfg.Steps))%3 != 0 || c.Cfg.Profile == "subject-votes") {
-				return b, true
+				reply = b
+			} else if right, known := c.W.Blocks.Get(h); known && right.View() > 0 && (alwaysWrongFirst || vbase.Hash64(fmt.Sprint("wrong-reply", a.Idx, h, c.Step))%2 == 0) {
+				reply = hotstuff.NewBlock(right.Parent(), right.QuorumCert(), vk.Batch(4040, uint64(c.Step)+1, 1), right.View(), right.Proposer())
+				c.WrongFetchReplies++
+				c.trace(TraceEntry{Kind: "fetch-wrong-reply", From: o.Name(), To: a.Name()})
 			}
+		}
+		if reply == nil {
+			continue
+		}
+		replies[uint32(o.ID)] = hotstuffpb.BlockToProto(reply)
+		if pb, done := network.VerifRequestBlockQF(in, replies); done {
+			return hotstuffpb.BlockFromProto(pb), true
 		}
 	}
 	return nil, false
